@@ -52,4 +52,101 @@ def normalizeLit [Add K] [Mul K] [Zero K] [Div K] [DecidableEq K] (rabs : K → 
     let d := (sq.map rabs).expandRange sq.rank 1
     zipBcast (fun x y => if y = 0 then x else x / y) v d
 
+/-- `hyperbolic.poincare_to_halfspace(points)` (hyperbolic.py:2052):
+`y = points[..., 0]; v = points[..., 1:]; x2 = normsq(v); denom = x2 + (y-1)*(y-1)`;
+`hs = zeros_like(points); hs[..., :-1] = (-2*v) / denom[..., newaxis]; hs[..., -1] = (1 - x2 - y*y) / denom`.
+(A composition of entrywise ufuncs on two arrays of one shape is written as one binary entrywise function.) -/
+def p2hND [Add K] [Mul K] [Zero K] [One K] [Div K] [Sub K] [Neg K] [OfNat K 2] (x : ND K) :
+    Except String (ND K) :=
+  let n := x.shape.getLastD 0
+  let y := x.selectLast 0
+  let v := x.sliceLast 1 n
+  match normsqND v with
+  | .error e => .error e
+  | .ok x2 =>
+    match zipBcast (fun a t => a + (t - 1) * (t - 1)) x2 y, zipBcast (fun a t => 1 - a - t * t) x2 y with
+    | .ok denom, .ok num =>
+      match zipBcast (· / ·) (v.map fun t => -2 * t) (denom.expandRange denom.rank 1),
+            zipBcast (· / ·) num denom with
+      | .ok A, .ok B => .ok (((full x.shape 0).setLastSlice 0 (n - 1) A).setLastIndex (n - 1) B)
+      | .error e, _ => .error e
+      | _, .error e => .error e
+    | .error e, _ => .error e
+    | _, .error e => .error e
+
+/-- `hyperbolic.halfspace_to_poincare(points)` (hyperbolic.py:2066):
+`y = points[..., -1]; v = points[..., :-1]; x2 = normsq(v); denom = x2 + (y+1)*(y+1)`;
+`pc = zeros_like(points); pc[..., 1:] = (-2*v) / denom[..., newaxis]; pc[..., 0] = (x2 + y*y - 1) / denom` -/
+def h2pND [Add K] [Mul K] [Zero K] [One K] [Div K] [Sub K] [Neg K] [OfNat K 2] (x : ND K) :
+    Except String (ND K) :=
+  let n := x.shape.getLastD 0
+  let y := x.selectLast (n - 1)
+  let v := x.sliceLast 0 (n - 1)
+  match normsqND v with
+  | .error e => .error e
+  | .ok x2 =>
+    match zipBcast (fun a t => a + (t + 1) * (t + 1)) x2 y, zipBcast (fun a t => a + t * t - 1) x2 y with
+    | .ok denom, .ok num =>
+      match zipBcast (· / ·) (v.map fun t => -2 * t) (denom.expandRange denom.rank 1),
+            zipBcast (· / ·) num denom with
+      | .ok A, .ok B => .ok (((full x.shape 0).setLastSlice 1 n A).setLastIndex 0 B)
+      | .error e, _ => .error e
+      | _, .error e => .error e
+    | .error e, _ => .error e
+    | _, .error e => .error e
+
+/-- `projective.affine_coords(points, chart_index=c)` past the chart test (projective.py:1496):
+`np.delete((apoints.T / apoints.T[c]).T, c, axis=-1)` -/
+def affineCoordsND [Div K] (x : ND K) (c : Nat) : Except String (ND K) :=
+  match zipBcast (· / ·) x.T (x.T.sub [c]) with
+  | .error e => .error e
+  | .ok q => .ok (q.T.deleteLast c)
+
+/-- `projective.projective_coords(points, chart_index=c)` (projective.py:1509):
+`result = zeros(shape[:-1] + (n+1,)); indices = arange(n); indices[c:] += 1`;
+`result[..., indices] = coords; result[..., c] = 1` -/
+def projCoordsND [Zero K] [One K] (a : ND K) (c : Nat) : ND K :=
+  let n := a.shape.getLastD 0
+  let indices := (List.range n).map fun j => if j < c then j else j + 1
+  ((full (a.shape.dropLast ++ [n + 1]) (0 : K)).setLastIdx indices a).setLastConst c 1
+
+/-- `hyperbolic.minkowski(n)` as an array -/
+def minkND [Zero K] [One K] [Neg K] (n : Nat) : ND K :=
+  ofFn [n, n] (fun ix => if ix.getD 0 0 = ix.getD 1 0 then (if ix.getD 0 0 = 0 then -1 else 1) else 0)
+
+/-- `hyperbolic.Segment._compute_aux_data(end_data)` (hyperbolic.py:945), literally:
+`products = end_data @ minkowski(dim) @ end_data.swapaxes(-1, -2)`;
+`a11, a22, a12 = products[..., 0, 0], products[..., 1, 1], products[..., 0, 1]`;
+`a = a11 - 2*a12 + a22; b = 2*a12 - 2*a22; c = a22`;
+`mu± = (-b ± sqrt(b*b - 4*a*c)) / (2*a)`;
+`null± = mu±[..., newaxis] * end_data[..., 0, :] + (1 - mu±)[..., newaxis] * end_data[..., 1, :]`;
+`np.stack([null1, null2], axis=-2)`.  `r` is the square root. -/
+def segmentAuxND [Add K] [Mul K] [Zero K] [One K] [Neg K] [Sub K] [Div K] [OfNat K 2] [OfNat K 4]
+    (r : K → K) (e : ND K) : Except String (ND K) := do
+  let n := e.shape.getLastD 0
+  let ol := e.rank - 2
+  let m1 ← matmul e (minkND n)
+  let pr ← matmul m1 (e.swapaxes (e.rank - 1) (e.rank - 2))
+  let a11 := (pr.selectLast 0).selectLast 0
+  let a22 := (pr.selectLast 1).selectLast 1
+  let a12 := (pr.selectLast 1).selectLast 0
+  let t ← zipBcast (fun x y => x - 2 * y) a11 a12
+  let a ← zipBcast (· + ·) t a22
+  let b ← zipBcast (fun x y => 2 * x - 2 * y) a12 a22
+  let ac ← zipBcast (fun x y => 4 * x * y) a a22
+  let disc ← zipBcast (fun x y => x * x - y) b ac
+  let num1 ← zipBcast (fun x d => -x + r d) b disc
+  let mu1 ← zipBcast (fun p x => p / (2 * x)) num1 a
+  let num2 ← zipBcast (fun x d => -x - r d) b disc
+  let mu2 ← zipBcast (fun p x => p / (2 * x)) num2 a
+  let e0 := e.selectAxis ol 0
+  let e1 := e.selectAxis ol 1
+  let p10 ← zipBcast (fun x m => m * x) e0 (mu1.expandRange mu1.rank 1)
+  let p11 ← zipBcast (fun x m => (1 - m) * x) e1 (mu1.expandRange mu1.rank 1)
+  let n1 ← zipBcast (· + ·) p10 p11
+  let p20 ← zipBcast (fun x m => m * x) e0 (mu2.expandRange mu2.rank 1)
+  let p21 ← zipBcast (fun x m => (1 - m) * x) e1 (mu2.expandRange mu2.rank 1)
+  let n2 ← zipBcast (· + ·) p20 p21
+  ND.stack [n1, n2] ol
+
 end GT.Act
